@@ -4,6 +4,7 @@ CONSTANTS
   Mode = "hostile"
   MaxPkts = 1
   MaxLen = 2
+  BodyClasses = {"any"}
   MaxStall = 1
   Chunking = "all"
   Dev = @@DEV@@
